@@ -78,6 +78,25 @@ func sameJSON(a, b interface{}) bool {
 		}
 		return true
 	}
+	return sameOpaque(a, b)
+}
+
+// sameOpaque compares two non-JSON values: identity for reference kinds (functions, channels,
+// maps, pointers, slices), deep equality otherwise.
+func sameOpaque(a, b interface{}) bool {
+	if a == nil || b == nil {
+		return a == nil && b == nil
+	}
+	va, vb := reflect.ValueOf(a), reflect.ValueOf(b)
+	if va.Type() != vb.Type() {
+		return false
+	}
+	switch va.Kind() {
+	case reflect.Func, reflect.Chan, reflect.Map, reflect.Ptr, reflect.UnsafePointer:
+		return va.Pointer() == vb.Pointer()
+	case reflect.Slice:
+		return va.Pointer() == vb.Pointer() && va.Len() == vb.Len()
+	}
 	return reflect.DeepEqual(a, b)
 }
 
@@ -183,7 +202,7 @@ type pathCase struct {
 	p    *gen.Path
 	r    gen.Rendered
 	f    impl.Func
-	fAcc impl.Func
+	fAcc impl.Func // parsed with accessor mode (only if the job asks for it)
 }
 
 type oracleFn func(j *productJob, c *run.Ctx, pc *pathCase, di, mode int, out *spec.Outcome, res impl.CallResult)
@@ -198,6 +217,10 @@ type productJob struct {
 	needModel bool
 	// onParseFail is called when a generated path does not parse
 	parseFailIsViolation bool
+	// needAcc: also parse every path with accessor mode
+	needAcc bool
+	// skipPlain: the oracle makes its own calls; do not call the plain function first
+	skipPlain bool
 }
 
 func (j *productJob) NumUnits() int { return len(j.units) }
@@ -261,7 +284,21 @@ func (j *productJob) RunUnit(i int, c *run.Ctx) {
 			c.Add("paths_rejected", 1)
 			continue
 		}
-		cases = append(cases, &pathCase{p: p, r: r, f: pr.F})
+		pc := &pathCase{p: p, r: r, f: pr.F}
+		if j.needAcc {
+			pa := impl.Parse(r.Text, &j.env.CfgAcc)
+			if pa.F == nil {
+				c.Violate(run.Violation{
+					Sig:    "parse-rejected-accessor:" + gen.Shape(p),
+					Detail: fmt.Sprintf("path %q parses without accessor mode but not with it: err=%s %s panic=%s", r.Text, pa.ErrType, pa.ErrMsg, pa.Panic),
+					Size:   len(r.Text),
+					Case:   caseOf(j.id, r.Text, "null", 0, "funcs"),
+				})
+				continue
+			}
+			pc.fAcc = pa.F
+		}
+		cases = append(cases, pc)
 		c.Add("paths", 1)
 	}
 	modes := j.ds.modes
@@ -302,7 +339,10 @@ func (j *productJob) RunUnit(i int, c *run.Ctx) {
 					c.States++
 				}
 				j.env.ResetImpl()
-				res := impl.Call(pc.f, doc)
+				var res impl.CallResult
+				if !j.skipPlain {
+					res = impl.Call(pc.f, doc)
+				}
 				c.Evals++
 				c.Traces++
 				j.oracle(j, c, pc, di, m, &out, res)
